@@ -122,7 +122,7 @@ class P:
             t = self.peek()
             if t[0] == "eof":
                 break
-            if depth == 0 and t[0] == "p" and t[1] in stops:
+            if depth == 0 and t[0] in ("p", "id") and t[1] in stops:
                 break
             if t[0] == "p" and t[1] in ("<", "(", "["):
                 depth += 1
